@@ -10,6 +10,7 @@ prefix, delete only keys recorded dead below `v` and keep every tree resolvable 
 -/
 import Verif.Lemmas.MptStoreTrie
 import Verif.Lemmas.Prune
+import Verif.Lemmas.MptStoreEvents
 import Verif.Props.C04
 namespace Verif.Props.C05
 open Verif.Mpt Verif.MptStore Verif.MptStore.Collector Verif.Props.C04
@@ -107,6 +108,13 @@ example : ∀ j x, (fun i x => i = 1 ∧ x = ((0 : Nat), "a")) (0 + 1) x →
     refine ⟨Or.inl ⟨rfl, h2⟩, ?_⟩
     intro h
     rcases h with ⟨h, _⟩ | ⟨h, _⟩ <;> omega
+
+/-- **Fresh origin**: every node an insert or delete at trie version `v` hands to `insertNode` as NEW carries origin
+    `v` (so, the origin being part of the hashed bytes, a later round cannot re-create a key of an earlier origin —
+    hypothesis `hstep` of `C05_dead_forever`). -/
+theorem fresh_origin (v : Nat) (b : Bytes) (t : Node) (pre p : List Nib) :
+    (∀ e ∈ (insertE v b t pre p).2, NewOrigin v e) ∧ (∀ e ∈ (deleteE v t pre p).2, NewOrigin v e) :=
+  ⟨insertE_new_origin v b t pre p, deleteE_new_origin v t pre p⟩
 
 /-- **Prune deletes only recorded keys**: every key deleted by (any prefix of) the write stream of
     `PruneBelowVersion v` is listed in a dead-node record of a version below `v`. -/
